@@ -104,8 +104,20 @@ def fallback_rules(rep, prog):
     got = {}
     for neg in (False, True):
         it = S.interp(prog, models={"f32>::is_sign_negative": lambda _it, _a, _c, _d, neg=neg: int(neg),
-                                    "f32>::is_sign_positive": lambda _it, _a, _c, _d, neg=neg: int(not neg)},
+                                    "f32>::is_sign_positive": lambda _it, _a, _c, _d, neg=neg: int(not neg),
+                                    "f32>::to_bits": lambda it_, a_, _c, _d: ("symop", "bits", A.deref_all(it_, a_[0]), None)},
                       oracle=lambda op, a_, b_, neg=neg: _sign_oracle(op, a_, b_, neg))
+        # the sign read off the bit pattern: to_bits(x) & 0x8000_0000 / to_bits(x) >> 31
+        plain = it.binop
+
+        def binop(op, a_, b_, ty, neg=neg, plain=plain):
+            xb = ("symop", "bits", S.sym("X"), None)
+            if op == "BitAnd" and ((a_ == xb and b_ == 0x80000000) or (b_ == xb and a_ == 0x80000000)):
+                return 0x80000000 if neg else 0
+            if op == "Shr" and a_ == xb and b_ == 31:
+                return int(neg)
+            return plain(op, a_, b_, ty)
+        it.binop = binop
         try:
             v = A.deref_all(it, it.call_body(rb, [S.sym("X"), S.sym("M")]))
             got[neg] = S.to_poly(v)
